@@ -164,6 +164,16 @@ struct Gen {
 		}
 		// heads and deeper states that take part in products
 		for (int s = 0; s < sh.n; ++s) if (!set[size_t(s)] && rng.chance(0.3)) { util[size_t(s)] = utilityValue(false); set[size_t(s)] = 1; }
+		// products along a path must not underflow in float: a positive utility that multiplies out to zero leaves the property's domain (positive top-rank sum)
+		{ std::vector<double> small(size_t(sh.n), 1.0);
+		  for (int s = 0; s < sh.n; ++s) {
+			const int par = sh.st[size_t(s)].parent;
+			const double ps = par >= 0 ? small[size_t(par)] : 1.0;
+			const float u = sh.st[size_t(s)].headless ? 1.0f : util[size_t(s)];
+			if (u > 0 && u < 1 && ps * double(u) < 1e-33) util[size_t(s)] = 1.0f;
+			const float u2 = sh.st[size_t(s)].headless ? 1.0f : util[size_t(s)];
+			small[size_t(s)] = ps * ((u2 > 0 && u2 < 1) ? double(u2) : 1.0);
+		  } }
 		for (int s = 0; s < sh.n; ++s) {
 			if (!set[size_t(s)]) continue;
 			if (rank[size_t(s)] == 0 && util[size_t(s)] == 1.0f) continue;
